@@ -4,7 +4,7 @@ PROP = dict(
     gen=["WalletConsts", "WalletV5Id", "TlbTypes"],
     # the model IS the specification for these ops: the address is defined as the hash of the state-init laid out as
     # the TON schema says, the send parameters and the confirmation verdict are what the property states
-    spec_ops=("w.addr", "w.gwa", "w.gsi", "w.send", "w.sendc", "w.ctx", "cell.hash", "seed.key", "prim.sha512", "prim.hmac512", "prim.pbkdf2_512"),
+    spec_ops=("w.addr", "w.gwa", "w.gsi", "w.codehash", "w.send", "w.sendc", "w.ctx", "cell.hash", "seed.key", "prim.sha512", "prim.hmac512", "prim.pbkdf2_512"),
     rule="addresses: every supported version x random Ed25519 keys x workchain in {default,0,-1,1,127,-128,255} x "
          "sub-wallet id in {default,0,2^32-1,698983191(+-1),random} x network id in {default,-239,-3,0,int32 bounds,random} "
          "through New().GetAddress, GenerateWalletAddress, GenerateStateInit; unsupported versions and odd key lengths; "
